@@ -6,7 +6,11 @@ struct vmutex { uint32_t held; uint32_t pad[9]; };
 uint32_t verif_mutex_lock_calls; static void *verif_mutex_locked[4];
 uint32_t verif_mutex_was_locked(void *m) { for (int i = 0; i < 4; i++) if (verif_mutex_locked[i] == m) return 1; return 0; }
    /* ghost: which mutexes were locked (harness observes e.g. "producers take no mutex") */
-uint32_t pthread_mutex_lock(struct vmutex *m) { VERIF_CHECK(!m->held, "pthread_mutex_lock on a mutex this thread already holds (self-deadlock)"); m->held = 1; if (verif_mutex_lock_calls < 4) verif_mutex_locked[verif_mutex_lock_calls] = m; verif_mutex_lock_calls++; return 0; }
+uint32_t verif_thread_id;   /* which (simulated) thread is executing: the harness switches it when it lets "another thread" make a call */
+uint32_t pthread_mutex_lock(struct vmutex *m) {
+  if (m->held && m->pad[0] != verif_thread_id) VERIF_ASSUME(0);   /* held by another thread: this thread blocks; in the sequentialised schedule this branch ends here */
+  VERIF_CHECK(!m->held, "pthread_mutex_lock on a mutex this thread already holds (self-deadlock)"); m->held = 1; m->pad[0] = verif_thread_id;
+  if (verif_mutex_lock_calls < 4) verif_mutex_locked[verif_mutex_lock_calls] = m; verif_mutex_lock_calls++; return 0; }
 uint32_t pthread_mutex_unlock(struct vmutex *m) { VERIF_CHECK(m->held, "pthread_mutex_unlock on a mutex that is not held"); m->held = 0; return 0; }
 uint32_t pthread_mutex_trylock(struct vmutex *m) { if (m->held) return 16; m->held = 1; return 0; }
 uint32_t __pthread_key_create(void *k, void *d) { return 0; }
